@@ -478,6 +478,21 @@ func TestC03(t *testing.T) {
 				}
 				pw.Emit(trace.Ev{"t": "reset", "seq": s + 1, "cfg": label})
 				w.ops(60, "initial")
+				// two more DMaps share the partitions (not asserted, they are there for the balancer to deal with): one with
+				// live keys, one whose keys were all deleted again, so that its fragments exist and are empty
+				if side, err := c.Members[0].DB.NewEmbeddedClient().NewDMap("side"); err == nil {
+					for i := 0; i < 30; i++ {
+						side.Put(context.Background(), fmt.Sprintf("s%d", i), "x")
+					}
+				}
+				if empty, err := c.Members[0].DB.NewEmbeddedClient().NewDMap("emptied"); err == nil {
+					for i := 0; i < 30; i++ {
+						empty.Put(context.Background(), fmt.Sprintf("e%d", i), "x")
+					}
+					for i := 0; i < 30; i++ {
+						empty.Delete(context.Background(), fmt.Sprintf("e%d", i))
+					}
+				}
 				w.readAll("initial")
 				events := 1 + rng.Intn(3)
 				var desc []string
